@@ -80,6 +80,12 @@ def generate(seed: int, tier: str) -> dict:
     if chance(orr, 0.2):
         # the simulation that gets dumped is a copy taken mid-way (Simulation.clone)
         history.insert(orr.randrange(len(history) + 1), {"do": ["clone"]})
+    if history and chance(orr, 0.25):
+        # a checkpoint: the simulation was already dumped into the same directory earlier in
+        # its history (the directory must be empty for a dump: a second dump is refused and
+        # the user empties the directory first - or it is accepted, and then it must be as
+        # faithful as a first one)
+        history.insert(orr.randrange(len(history)), {"do": ["checkpoint"]})
     after = [{"do": gen_request(orr, world)} for _ in range(orr.randint(2, 5))]
     return {
         "format": 1,
@@ -157,7 +163,20 @@ def run(scn) -> Result:
             if scn.get("positions_seed"):
                 if hand_set_positions(sim, random.Random(scn["positions_seed"])):
                     res.count("probe:member_positions_set_by_hand")
+            directory = f"/sim/dump{seams.SimFS._uniq + 1}"
+            seams.SimFS._uniq += 1
+            checkpointed = False
             for op in scn["ops"]:
+                if op["do"][0] == "checkpoint":
+                    try:
+                        dump_simulation(sim, directory)
+                        checkpointed = True
+                        res.count("probe:directory_already_holds_an_earlier_dump")
+                    except Exception as e:  # noqa: BLE001
+                        res.violate("C19.values", "dump", what="dump_simulation raised (checkpoint)", error=type(e).__name__, detail=str(e)[:200])
+                        return _finish(res, H, scn)
+                    H.add("O", "checkpoint", None, None)
+                    continue
                 if op["do"][0] == "clone":
                     sim = sim.clone()
                     H.add("O", "clone", None, None)
@@ -179,10 +198,19 @@ def run(scn) -> Result:
                 res.count("probe:trailing_empty_group")
             res.mark("states", digest(sorted([list(k), v] for k, v in locations(sim).items())))
 
-            directory = f"/sim/dump{seams.SimFS._uniq + 1}"
-            seams.SimFS._uniq += 1
             try:
-                dump_simulation(sim, directory)
+                try:
+                    dump_simulation(sim, directory)
+                    if checkpointed:
+                        res.count("probe:second_dump_into_the_same_directory_accepted")
+                except ValueError:
+                    if not checkpointed:
+                        raise
+                    # refused because the directory is not empty: empty it, dump again
+                    res.count("probe:second_dump_into_the_same_directory_refused")
+                    env.fs.rmtree(directory)
+                    env.fs.mkdir(directory)
+                    dump_simulation(sim, directory)
             except Exception as e:  # noqa: BLE001
                 res.violate("C19.values", "dump", what="dump_simulation raised", error=type(e).__name__, detail=str(e)[:200])
                 return _finish(res, H, scn)
